@@ -469,6 +469,52 @@ def truncated_cases(mode):
                        "fields": None, "cfg": 1}
 
 
+    # a weekday on its own (no week number beside it)
+    for dow in range(-1, 11):
+        legal = 1 <= dow <= 7
+        yield {"op": "ctor", "mode": mode, "what": "week",
+               "kw": {"truncated": True, "day_of_week": dow}, "legal": legal,
+               "near": True, "no_fields": True}
+        for y in (2001, 2004):
+            yield {"op": "ctor", "mode": mode, "what": "week",
+                   "kw": {"year": y, "day_of_week": dow}, "legal": legal,
+                   "near": True, "no_fields": True}
+        if 0 <= dow <= 9:
+            for tail in ("", "T06", "T0630Z"):
+                yield {"op": "text", "mode": mode, "what": "week",
+                       "text": "-W-%d%s" % (dow, tail), "legal": legal,
+                       "fields": None, "cfg": 1}
+    # a two-digit year beside month and day / day of year: the year's own
+    # leap status decides (century years left out: 00 could be 1900 or 2000)
+    for yy in (1, 3, 4, 96, 99, 20, 21):
+        yl = R.month_lengths(mode, yy)
+        for mth, d in ((2, 28), (2, 29), (2, 30), (2, 31), (4, 30), (4, 31),
+                       (12, 31), (12, 32), (1, 0), (13, 1)):
+            legal = 1 <= mth <= 12 and 1 <= d <= yl[mth - 1]
+            yield {"op": "ctor", "mode": mode, "what": "cal",
+                   "kw": {"truncated": True,
+                          "truncated_property": "year_of_century",
+                          "year": yy, "month_of_year": mth,
+                          "day_of_month": d}, "legal": legal, "near": True,
+                   "no_fields": True}
+            for fmt in ("%02d%02d%02d", "%02d-%02d-%02d",
+                        "%02d%02d%02dT0630", "%02d-%02d-%02dT06:30Z"):
+                yield {"op": "text", "mode": mode, "what": "cal",
+                       "text": fmt % (yy, mth, d), "legal": legal,
+                       "fields": None, "cfg": 1}
+        for doy in (0, 1, 360, 361, 365, 366, 367):
+            legal = 1 <= doy <= sum(yl)
+            yield {"op": "ctor", "mode": mode, "what": "ord",
+                   "kw": {"truncated": True,
+                          "truncated_property": "year_of_century",
+                          "year": yy, "day_of_year": doy}, "legal": legal,
+                   "near": True, "no_fields": True}
+            for fmt in ("%02d%03d", "%02d-%03d"):
+                yield {"op": "text", "mode": mode, "what": "ord",
+                       "text": fmt % (yy, doy), "legal": legal,
+                       "fields": None, "cfg": 1}
+
+
 def time_zone_cases():
     for h in range(-1, 26):
         for m in (-1, 0, 1, 59, 60):
